@@ -1201,6 +1201,8 @@ def m_iter_next(ctx):
         x = iter_next(ex, st, inner)
         if x is None:
             return [(None, none())]
+        if isinstance(x, RawItem):
+            return [(None, some(x.v))]
         ex.call_closure(st, it.attrs['f'], [x], ctx.dest, ctx.nxt, Cont('wrap', mode='wrap:Some', ret_ty='Option'))
         return PUSHED
     x = iter_next(ex, st, it)
@@ -1236,6 +1238,17 @@ def m_iter_adapt(ctx):
             pairs.append((z3.BitVecVal(i - it.attrs['pos'], 64), Ref(('elem', src, i)) if it.attrs['mode'] == 'ref' else src.attrs['items'][i]))
         o = Obj('Iter', kind='iter'); o.attrs['src'] = new_vec('Vec', pairs); o.attrs['pos'] = 0; o.attrs['mode'] = 'val'
         return [(None, o)]
+    if op == 'chain':
+        other = ex.deref_val(st, ctx.args[1])
+        plain = lambda o: isinstance(o, Obj) and o.kind in ('iter', 'range')
+        lazy = lambda o: isinstance(o, Obj) and o.kind == 'mapiter' and not o.attrs.get('filter') and not o.attrs.get('flat') and plain(o.attrs['inner'])
+        if (plain(it) and lazy(other)) or (lazy(it) and plain(other)):
+            # a plain sequence chained with a lazily mapped one: one lazy iterator whose plain part passes through unmapped (RawItem)
+            mp, pl, first = (other, it, True) if lazy(other) else (it, other, False)
+            raw = [RawItem(x) for x in drain_iter(ex, st, pl)]; mapped = drain_iter(ex, st, mp.attrs['inner'])
+            src = Obj('Iter', kind='iter'); src.attrs['src'] = new_vec('Vec', raw + mapped if first else mapped + raw); src.attrs['pos'] = 0; src.attrs['mode'] = 'val'
+            o = Obj('Chain', kind='mapiter'); o.attrs['inner'] = src; o.attrs['f'] = mp.attrs['f']
+            return [(None, o)]
     if op in ('chain', 'zip'):
         other = ex.deref_val(st, ctx.args[1])
         if not isinstance(other, Obj) or other.kind not in ('iter', 'range'):
@@ -1281,8 +1294,16 @@ def m_iter_consume(ctx):
     return consume_list(ctx, op, xs, ctx.args[1:], ctx.ret_ty, ctx.dest, ctx.nxt)
 
 
+class RawItem:
+    """an element of a lazily mapped iterator that bypasses the map closure (the plain side of a chain)"""
+    def __init__(self, v):
+        self.v = v
+
+
 def _mapcollect_step(ex, st, c, work):
     d = c.data
+    while d['pending'] and isinstance(d['pending'][0], RawItem):
+        d['done'].append(d['pending'].pop(0).v)
     if d['pending']:
         x = d['pending'].pop(0)
         ex.call_closure(st, d['f'], [x], d['dest'], d['nxt'], c)
